@@ -60,9 +60,15 @@ type RunSpec struct {
 	// Barrier > 0: the last Barrier jobs form a capacity probe: they are enqueued once all
 	// earlier jobs have finished and each blocks until all of them are in flight at once
 	// (or a timeout): with N workers, N runnable jobs must run concurrently (C03).
-	Barrier    int     `json:"barrier"`
-	PerturbP   float64 `json:"perturbp"`
-	PerturbMax int     `json:"perturbmax"`
+	Barrier int `json:"barrier"`
+	// Hold > 0: the body of job Hold blocks until the driver releases it, which it does only after Wait
+	// has returned (or after a long timeout); the context is cancelled once that body has started, before
+	// (PromptOrder = "cancel-first") or after Wait is called.  Wait must return while the body is still
+	// held: cancellation is prompt, it does not wait for running jobs (C09).
+	Hold        int     `json:"hold"`
+	PromptOrder string  `json:"promptorder"`
+	PerturbP    float64 `json:"perturbp"`
+	PerturbMax  int     `json:"perturbmax"`
 	// Script, if non-empty, replaces the random pacing: the run is steered
 	// step by step (see replay.go).
 	Script []Step `json:"script,omitempty"`
@@ -234,19 +240,23 @@ func genFanin(rng *rand.Rand, k, maxJ, maxN int) RunSpec {
 func genCapacity(rng *rand.Rand, k int) RunSpec {
 	n := 1 + rng.Intn(4)
 	pre := rng.Intn(2*n + 2)
-	J := pre + n
-	rs := RunSpec{Run: k, Seed: rng.Int63(), J: J, N: n, Coe: true, CancelMode: "none", Cancel2Mode: "none", Barrier: n}
+	// two more probe jobs than workers: exactly n of them must be in flight together, never more
+	J := pre + n + 2
+	rs := RunSpec{Run: k, Seed: rng.Int63(), J: J, N: n, Coe: true, CancelMode: "none", Cancel2Mode: "none", Barrier: n + 2}
 	for j := 1; j <= J; j++ {
 		rs.Deps = append(rs.Deps, []int{})
 		o, c := "ok", 1
 		if j <= pre {
-			switch rng.Intn(4) {
+			switch rng.Intn(5) {
 			case 0:
 				o = "goexit"
 			case 1:
 				o, c = "c2exit", 2
 			case 2:
 				o, c = "goexit", 2
+			case 3:
+				// the job returns the error of a nested scheduler one of whose jobs killed its goroutine
+				o = "nested"
 			}
 		}
 		rs.Out = append(rs.Out, o)
@@ -255,6 +265,27 @@ func genCapacity(rng *rand.Rand, k int) RunSpec {
 		rs.BodyUs = append(rs.BodyUs, rng.Intn(30))
 		rs.EnqUs = append(rs.EnqUs, 0)
 	}
+	return rs
+}
+
+// genPrompt: see RunSpec.Hold.
+func genPrompt(rng *rand.Rand, k int) RunSpec {
+	n := 1 + rng.Intn(3)
+	J := 1 + rng.Intn(5)
+	rs := RunSpec{Run: k, Seed: rng.Int63(), J: J, N: n, Coe: rng.Intn(2) == 0, CancelMode: "none", Cancel2Mode: "none",
+		Hold: 1 + rng.Intn(J), PromptOrder: []string{"cancel-first", "wait-first"}[rng.Intn(2)]}
+	for j := 1; j <= J; j++ {
+		deps := []int{}
+		if j > rs.Hold && rng.Intn(2) == 0 {
+			deps = append(deps, rs.Hold)
+		}
+		rs.Deps = append(rs.Deps, deps)
+		rs.Out = append(rs.Out, []string{"ok", "ok", "err"}[rng.Intn(3)])
+		rs.Cls = append(rs.Cls, j)
+		rs.BodyUs = append(rs.BodyUs, rng.Intn(40))
+		rs.EnqUs = append(rs.EnqUs, 0)
+	}
+	rs.Out[rs.Hold-1] = "ok"
 	return rs
 }
 
@@ -302,26 +333,29 @@ func (e *stateEmitter) Emit(s scheduler.State) {
 }
 
 type exec struct {
-	rs      RunSpec
-	log     *vt.APILog
-	errs    map[int]error // class -> error value
-	cancel  context.CancelFunc
-	cmu     sync.Mutex
-	cdone   bool
-	cbegun  bool
-	ctx2    context.Context
-	cancel2 context.CancelFunc
-	c2done  bool
-	c2begun bool
-	inBody  int32
-	inBar   int32         // barrier jobs in flight
-	maxBar  int32         // most barrier jobs ever in flight together
-	barFull chan struct{} // closed when all barrier jobs are in flight
-	barOnce sync.Once
-	nostamp bool
-	col     *vt.Collector
-	gate    func(j int) // scripted runs: blocks the body of job j until released
-	over    int32       // set when the run has been judged; late timers must not log into the next run
+	rs       RunSpec
+	log      *vt.APILog
+	errs     map[int]error // class -> error value
+	cancel   context.CancelFunc
+	cmu      sync.Mutex
+	cdone    bool
+	cbegun   bool
+	ctx2     context.Context
+	cancel2  context.CancelFunc
+	c2done   bool
+	c2begun  bool
+	inBody   int32
+	inBar    int32         // barrier jobs in flight
+	maxBar   int32         // most barrier jobs ever in flight together
+	barFull  chan struct{} // closed when all barrier jobs are in flight
+	barOnce  sync.Once
+	holdc    chan struct{} // closed to release the held body
+	heldc    chan struct{} // closed when the held body has started
+	heldOnce sync.Once
+	nostamp  bool
+	col      *vt.Collector
+	gate     func(j int) // scripted runs: blocks the body of job j until released
+	over     int32       // set when the run has been judged; late timers must not log into the next run
 }
 
 // doCancel cancels the context and stamps the Cancel event after cancel()
@@ -411,6 +445,47 @@ func (x *exec) tok(e error) vt.Tok {
 	return vt.Tok{K: "?"}
 }
 
+// prompt runs the rest of a run with a held body (RunSpec.Hold).
+func (x *exec) prompt(ctx context.Context, s *scheduler.Scheduler) {
+	rs := &x.rs
+	select {
+	case <-x.heldc:
+	case <-time.After(2 * time.Second):
+		// the held job never started (e.g. it depends on nothing but no worker took it): not a promptness case
+		close(x.holdc)
+		x.log.Add(vt.APIEvent{Ev: "waitcall", Run: rs.Run})
+		err := s.Wait(ctx)
+		kind, toks := x.classify(err)
+		x.log.Add(vt.APIEvent{Ev: "waitret", Run: rs.Run, Kind: kind, Toks: toks})
+		return
+	}
+	returned := make(chan struct{})
+	wait := func() {
+		x.log.Add(vt.APIEvent{Ev: "waitcall", Run: rs.Run})
+		err := s.Wait(ctx)
+		kind, toks := x.classify(err)
+		x.log.Add(vt.APIEvent{Ev: "waitret", Run: rs.Run, Kind: kind, Toks: toks})
+		close(returned)
+	}
+	if rs.PromptOrder == "cancel-first" {
+		x.doCancel()
+		go wait()
+	} else {
+		go wait()
+		time.Sleep(200 * time.Microsecond)
+		x.doCancel()
+	}
+	prompt := 0
+	select {
+	case <-returned:
+		prompt = 1
+	case <-time.After(1500 * time.Millisecond):
+	}
+	x.log.Add(vt.APIEvent{Ev: "prompt", Run: rs.Run, P: prompt, Job: rs.Hold})
+	close(x.holdc)
+	<-returned
+}
+
 // ctxOf returns the context job j is enqueued with.
 func (x *exec) ctxOf(ctx context.Context, j int) context.Context {
 	if x.rs.jctx(j) == 2 {
@@ -448,6 +523,13 @@ func (x *exec) body(j int) func(context.Context) error {
 		if x.gate != nil {
 			x.gate(j)
 		}
+		if rs.Hold == j {
+			x.heldOnce.Do(func() { close(x.heldc) })
+			select {
+			case <-x.holdc:
+			case <-time.After(4 * time.Second): // never block a body for good
+			}
+		}
 		o := rs.Out[j-1]
 		if o == "cancel" {
 			x.doCancel()
@@ -463,21 +545,31 @@ func (x *exec) body(j int) func(context.Context) error {
 					break
 				}
 			}
-			if int(n) == rs.Barrier {
+			if int(n) == effN(rs.N) {
 				x.barOnce.Do(func() { close(x.barFull) })
 			}
 			select {
 			case <-x.barFull:
+				time.Sleep(300 * time.Microsecond) // stay in flight a little: a surplus worker would show now
 			case <-time.After(1500 * time.Millisecond):
 			}
 			atomic.AddInt32(&x.inBar, -1)
 		}
-		out := map[string]string{"ok": "ok", "cancel": "ok", "err": "err", "goexit": "exit", "c2exit": "exit"}[o]
+		if o == "nested" {
+			inner := scheduler.Config{Concurrency: 1}.New()
+			inner.Enqueue(ctx, scheduler.Job{Run: func(context.Context) error { runtime.Goexit(); return nil }})
+			x.cmu.Lock()
+			x.errs[rs.Cls[j-1]] = inner.Wait(ctx)
+			x.cmu.Unlock()
+		}
+		out := map[string]string{"ok": "ok", "cancel": "ok", "err": "err", "goexit": "exit", "c2exit": "exit", "nested": "err"}[o]
 		if !x.nostamp {
 			x.log.Add(vt.APIEvent{Ev: "end", Run: rs.Run, Job: j, Out: out})
 		}
 		switch o {
-		case "err":
+		case "err", "nested":
+			x.cmu.Lock()
+			defer x.cmu.Unlock()
 			return x.errs[rs.Cls[j-1]]
 		case "goexit", "c2exit":
 			runtime.Goexit()
@@ -488,7 +580,8 @@ func (x *exec) body(j int) func(context.Context) error {
 
 // execRun executes one run on the real scheduler.
 func execRun(rs RunSpec, log *vt.APILog, col *vt.Collector, nostamp bool, deadline time.Duration) (hang bool) {
-	x := &exec{rs: rs, log: log, errs: map[int]error{}, nostamp: nostamp, col: col, barFull: make(chan struct{})}
+	x := &exec{rs: rs, log: log, errs: map[int]error{}, nostamp: nostamp, col: col, barFull: make(chan struct{}),
+		holdc: make(chan struct{}), heldc: make(chan struct{})}
 	if col != nil {
 		col.ResetSeen()
 	}
@@ -590,6 +683,10 @@ func execRun(rs RunSpec, log *vt.APILog, col *vt.Collector, nostamp bool, deadli
 			handles[j] = s.Enqueue(x.ctxOf(ctx, j), scheduler.Job{Run: x.body(j), Dependencies: deps})
 		}
 		sleepUs(rs.WaitUs)
+		if rs.Hold > 0 {
+			x.prompt(ctx, s)
+			return
+		}
 		if !nostamp {
 			log.Add(vt.APIEvent{Ev: "waitcall", Run: rs.Run})
 		}
@@ -597,7 +694,7 @@ func execRun(rs RunSpec, log *vt.APILog, col *vt.Collector, nostamp bool, deadli
 		kind, toks := x.classify(err)
 		log.Add(vt.APIEvent{Ev: "waitret", Run: rs.Run, Kind: kind, Toks: toks})
 		if rs.Barrier > 0 && !nostamp {
-			log.Add(vt.APIEvent{Ev: "capacity", Run: rs.Run, P: int(atomic.LoadInt32(&x.maxBar)), C: rs.Barrier})
+			log.Add(vt.APIEvent{Ev: "capacity", Run: rs.Run, P: int(atomic.LoadInt32(&x.maxBar)), C: effN(rs.N)})
 		}
 	}()
 
@@ -725,6 +822,11 @@ func main() {
 		rng := rand.New(rand.NewSource(*seed))
 		for k := 1; k <= *runs; k++ {
 			specs = append(specs, genCapacity(rng, k))
+		}
+	case "prompt":
+		rng := rand.New(rand.NewSource(*seed))
+		for k := 1; k <= *runs; k++ {
+			specs = append(specs, genPrompt(rng, k))
 		}
 	case "pileup":
 		rng := rand.New(rand.NewSource(*seed))
